@@ -51,6 +51,16 @@ class Hex2:
         return f'<hex {self.v!r}>'
 
 
+class HexN:
+    """Hexadecimal digits of a symbolic non-negative integer WITHOUT padding (one digit for values below 16)."""
+    def __init__(self, v, upper=True):
+        self.v = v
+        self.upper = upper
+
+    def __repr__(self):
+        return f'hex({self.v!r})'
+
+
 class SStr:
     py_type = 'str'
 
@@ -173,6 +183,10 @@ def render(value, spec='', conv=None, interp=None):
             lo, hi = value.interval()
             if 0 <= lo and hi <= 255:
                 return SStr([Hex2(value, spec == '02X')])
+        if spec in ('X', 'x', '2X', '2x'):
+            lo, hi = value.interval()
+            if 0 <= lo:
+                return SStr([HexN(value, spec.endswith('X'))] if spec in ('X', 'x') or lo >= 16 else [' ', HexN(value, spec.endswith('X'))])
         return None
     if isinstance(value, FloatSym) and spec == '':
         return SStr([Flt(value)])
@@ -295,6 +309,67 @@ def install(ai):
     ai.method_hooks.insert(0, hook)
     ai.str_domain = True
 
+    def s_resub(interp, args, kwargs, node):
+        pat, repl, text = args[0], args[1], args[2]
+        ss = to_sstr(text)
+        if ss is None or not isinstance(pat, str) or not isinstance(repl, str):
+            return Opaque('re.sub')
+        try:
+            rx = re.compile(pat)
+        except re.error:
+            return Opaque('re.sub pattern')
+        # only patterns that cannot match inside a symbolic segment (hex digits) are supported
+        if rx.search('0123456789abcdefABCDEF'):
+            return Opaque('re.sub pattern may match symbolic text')
+        return norm(SStr([rx.sub(repl, x) if isinstance(x, str) else x for x in ss.segs]))
+    ai.summaries.setdefault('re.sub', s_resub)
+
+
+_PCT = re.compile(r'%(?P<flags>[-+ #0]*)(?P<width>\d*)(?:\.(?P<prec>\d+))?(?P<type>[diouxXeEfFgGcrsa%])')
+
+
+def percent(interp, template, arg):
+    """template % arg for a literal template, as segments; None when not representable."""
+    from .absint import AList as _AL
+    if isinstance(arg, _AL) and arg.kind == 'tuple':
+        values = list(arg.items)
+    elif isinstance(arg, tuple):
+        values = list(arg)
+    else:
+        values = [arg]
+    segs = []
+    pos = 0
+    vi = 0
+    for m in _PCT.finditer(template):
+        segs.append(template[pos:m.start()])
+        pos = m.end()
+        ty = m.group('type')
+        if ty == '%':
+            segs.append('%')
+            continue
+        if vi >= len(values) or '-' in m.group('flags') or '#' in m.group('flags') or '+' in m.group('flags') or ' ' in m.group('flags'):
+            return None
+        v = values[vi]
+        vi += 1
+        spec = ('0' if '0' in m.group('flags') else '') + m.group('width') + ('.' + m.group('prec') if m.group('prec') else '')
+        if ty in 'di':
+            r = render(v, spec + 'd' if spec else '', None, interp)
+        elif ty in 'xX':
+            r = render(v, spec + ty, None, interp)
+        elif ty == 's':
+            r = render(v, '', None, interp) if not spec else None
+        elif ty == 'r':
+            r = render(v, '', 'r', interp) if not spec else None
+        else:
+            r = None
+        if r is None:
+            return None
+        segs.append(r)
+    if vi != len(values):
+        return None
+    segs.append(template[pos:])
+    return norm(SStr(segs))
+
 
 def fmt(interp, template, args, kwargs):
     """'..{}..{name!r:spec}..'.format(...)"""
@@ -368,6 +443,13 @@ def fromhex(s):
                 i += 2
         elif isinstance(seg, Hex2):
             out.append(seg.v)
+        elif isinstance(seg, HexN):
+            lo, hi = seg.v.interval()
+            if lo >= 16 and hi <= 255:
+                out.append(seg.v)
+            else:
+                # a value below 16 prints as ONE digit: fromhex rejects the odd digit (values above 255 print three)
+                raise AbsRaise('ValueError', None)
         else:
             raise AbsRaise('ValueError', None)
     return out
